@@ -1180,12 +1180,17 @@ class _Bitwise(Contract):
         # a PLAIN operand at or beyond 2^bitlength: the plain-int path has no width, Python's result is the answer
         n = 3 if tier == "quick" else 6
         out += [dict(mode="plain", kind="sk", bits=n, plain=v) for v in ((1 << n), (1 << n) + 5, (3 << n) + 1)]
+        # the SAME object on both sides (x ^ x, acc &= acc): same clauses, same trace shape (counts as for two operands)
+        out += [dict(mode=m, kind="same", bits=3) for m in ("plain", "g0")]
         return out
 
     def setup(self, c, cfg):
         apply_mode(c, cfg["mode"], bitlength=cfg["bits"])
+        x = c.operand("x")
+        if cfg["kind"] == "same":
+            return getattr(c.LinComb, self.name.rsplit(".", 1)[1]), (x, x), {}
         y = c.operand("y") if cfg["kind"] == "ss" else cfg.get("plain", 5)          # int operand: concrete (a width-free symbolic & is not encodable)
-        return getattr(c.LinComb, self.name.rsplit(".", 1)[1]), (c.operand("x"), y), {}
+        return getattr(c.LinComb, self.name.rsplit(".", 1)[1]), (x, y), {}
 
     def pre(self, c, x, y):
         return [(1 << c.bitlength) < c.p]
